@@ -194,12 +194,12 @@ def check_sampling(rec, option, kind, policy, K, n_req, tmax_mode="symbolic", va
                 _prove(rec, I, "requested time %d (<= t_max, reached) is covered by the record of the first step at or after it" % m,
                        z3.Implies(z3.And(R[m] <= tmaxz, R[m] <= Tl), cover), desc,
                        lambda mm, m=m: rec.violation("sampling-missed-request", "a requested time <= t_max is not covered by the record of the first step at/after it (%s)" % desc,
-                                                     {"structure": desc, "model": str(mm)[:400], "recorded_steps": rec_steps}))
+                                                     {"structure": desc, "model": str(mm)[:400], "recorded_steps": rec_steps}, replayed=sampling_replays(option, kind, policy)))
             for k in rec_steps:
                 why = z3.Or(*[_first_step_at_or_after(T, R[m], k, I) for m in range(n_req)]) if n_req else z3.BoolVal(False)
                 _prove(rec, I, "record at step %d is the first step at/after some requested time" % k, why, desc,
                        lambda mm, k=k: rec.violation("sampling-spurious-record", "a record was taken at a step that is not the first one at/after any requested time (%s)" % desc,
-                                                     {"structure": desc, "model": str(mm)[:400], "step": k}))
+                                                     {"structure": desc, "model": str(mm)[:400], "step": k}, replayed=sampling_replays(option, kind, policy)))
         elif policy == "on_iteration":
             ok = rec_steps == list(range(0, last + 1))
             rec.oblig("per-iteration sampling records t=0 and every step", "holds" if ok else "violated", rec_steps, 0, desc)
@@ -215,7 +215,7 @@ def check_sampling(rec, option, kind, policy, K, n_req, tmax_mode="symbolic", va
                 _prove(rec, I, "interval sampling: step %d recorded iff a multiple of the interval lies in (t_prev, t]" % k,
                        crossed if k in rec_steps else z3.Not(crossed), desc,
                        lambda mm, k=k: rec.violation("sampling-interval", "interval sampling record set differs from 'first step at/after each multiple' (%s)" % desc,
-                                                     {"structure": desc, "model": str(mm)[:300], "step": k, "recorded": rec_steps}))
+                                                     {"structure": desc, "model": str(mm)[:300], "step": k, "recorded": rec_steps}, replayed=sampling_replays(option, kind, policy)))
         elif policy == "no_sampling":
             ok = rec_steps == []
             rec.oblig("sampling disabled: the policy records nothing", "holds" if ok else "violated", rec_steps, 0, desc)
@@ -230,7 +230,7 @@ def check_sampling(rec, option, kind, policy, K, n_req, tmax_mode="symbolic", va
         strict = not sample_calls
         for a, b in zip(ts, ts[1:]):
             _prove(rec, I, "record times are %s" % ("strictly increasing" if strict else "non-decreasing"), (a < b) if strict else (a <= b), desc,
-                   lambda mm: rec.violation("sampling-time-order", "record times are not monotone (%s)" % desc, {"structure": desc, "model": str(mm)[:300]}))
+                   lambda mm: rec.violation("sampling-time-order", "record times are not monotone (%s)" % desc, {"structure": desc, "model": str(mm)[:300]}, replayed=sampling_replays(option, kind, policy)))
         # each record's time is the time of the step at which it was taken
         pol_steps = list(rec_steps)
         # repeated fetch gives the same result
@@ -244,3 +244,76 @@ def check_sampling(rec, option, kind, policy, K, n_req, tmax_mode="symbolic", va
                         "record_times": [str(z3.simplify(x)) for x in ts][:6]})
     rec.vacuity_witness("sampling " + desc, npaths > 0, "%d feasible paths, %d completed" % (npaths, completed))
     return npaths
+
+
+# -------------------------------------------------------------------------------- real-build audit (replay)
+def _ref_sets(T, req, tmax, policy, interval):
+    """(required, allowed) record step sets of the specification, given all step times T (T[0] = 0)."""
+    N = next((k for k in range(1, len(T)) if T[k] > tmax), len(T) - 1)
+    steps = list(range(0, N + 1))
+    if policy == "on_iteration":
+        return set(steps), set(steps), N
+    if policy == "no_sampling":
+        return set(), set(), N
+    if policy == "on_interval":
+        s = {0}
+        import math
+        for k in range(1, N + 1):
+            if math.floor(T[k] / interval) > math.floor(T[k - 1] / interval):
+                s.add(k)
+        return s, set(s), N
+    required, allowed = set(), set()
+    for r in req:
+        k = next((k for k in steps if T[k] >= r), None)
+        if k is None:
+            continue
+        allowed.add(k)
+        if r <= tmax:
+            required.add(k)
+    return required, allowed, N
+
+
+def audit_sampling_real(option, kind, policy, seeds=(1, 2, 3), dt=0.125):
+    """Two real runs with the same seed: per-iteration sampling yields every step time, the run under
+    `policy` yields the records; requested times are chosen ON and BETWEEN those step times."""
+    from .enginelegs import real_run
+    netname = "AB_rev"
+    sd = ("grid", 2, 1, 1, 0) if kind == "grid" else ("graph", "pair")
+    system = catalogue.build(netname, sd)
+    system.state = [40.0] * (2 * system.space.size())
+    out = []
+    for seed in seeds:
+        sA = make_script(system, option, dt, policy="on_iteration", t_sample=(0,), t_max=1e9, isp="none", seed=seed)
+        _, T = real_run(sA, option, 12)
+        if len(T) < 8:
+            continue
+        cases = [([0.0, T[2], (T[3] + T[4]) / 2], T[6]), ([T[1], T[1], T[3]], T[5]), ([(T[2] + T[3]) / 2, (T[2] + T[3]) / 2 + (T[3] - T[2]) / 4, T[5]], T[4]),
+                 ([T[2] / 2], T[3]), ([0.0, T[4]], T[4])]
+        for req, tmax in cases:
+            sB = make_script(system, option, dt, policy=policy, t_sample=req, t_max=tmax, isp="none", seed=seed, interval=(T[3] - T[0]) / 2 or 1)
+            _, rt = real_run(sB, option, None)
+            required, allowed, N = _ref_sets(T, req, tmax, policy, (T[3] - T[0]) / 2 or 1)
+            got = set()
+            bad = None
+            for t in rt:
+                ks = [k for k in range(len(T)) if T[k] == t]
+                if not ks:
+                    bad = "record time %r is not a step time" % t
+                    break
+                got.add(ks[0])
+            if bad is None and any(b <= a for a, b in zip(rt, rt[1:])):
+                bad = "record times not strictly increasing: %r" % rt
+            if bad is None and not (required <= got <= allowed):
+                bad = "recorded steps %s, required %s, allowed %s" % (sorted(got), sorted(required), sorted(allowed))
+            if bad:
+                out.append({"seed": seed, "requested": req, "t_max": tmax, "step_times": T[:9], "record_times": rt, "problem": bad})
+    return out
+
+
+def sampling_replays(option, kind, policy):
+    try:
+        if policy == "no_sampling":
+            return True
+        return bool(audit_sampling_real(option, kind, policy))
+    except Exception:
+        return False
